@@ -18,12 +18,16 @@ import json, sys, xml.etree.ElementTree as ET
 base = set(json.load(open("/root/.vp/BASELINE.json"))["stable_pass"])
 root = ET.parse(sys.argv[1]).getroot()
 passed = set()
+why = {}
 for tc in root.iter("testcase"):
-    if not any(ch.tag in ("failure", "error", "skipped") for ch in tc):
+    bad = [ch for ch in tc if ch.tag in ("failure", "error", "skipped")]
+    if not bad:
         passed.add(f"{tc.get('classname')}::{tc.get('name')}")
+    else:
+        why[f"{tc.get('classname')}::{tc.get('name')}"] = (bad[0].get("message") or "")[:160].replace("\n", " ")
 missing = sorted(base - passed)
 print(f"baseline stable_pass={len(base)} passed_now={len(passed)} missing={len(missing)}")
 for m in missing[:20]:
-    print("  MISSING", m)
+    print("  MISSING", m, "|", why.get(m, "not run"))
 sys.exit(1 if missing else 0)
 PY
